@@ -1,7 +1,7 @@
 #!/bin/bash
 # try_seed.sh <patch.diff> <ID> [<ID>...] : apply a seeded change to /repo, run the quick checks, undo it, rebuild.
 set -u
-P=$1; shift
+P=$(readlink -f "$1"); shift
 cd /repo && git apply "$P" || { echo "patch does not apply"; exit 2; }
 cd /verif
 for id in "$@"; do
